@@ -434,6 +434,124 @@ theorem C16_wire_array (c : Coin) (kwargs : Kwargs) (n sub : List Char) (items :
 
 end wire
 
+/-! ## several networks in one process -/
+
+/-- C16.parse_network_independent: in any process history over any networks, the answer of each call is the answer
+the same call gives alone — it depends only on that call's network, message name and bytes / values -/
+theorem C16_parse_network_independent (st : ProcState) (pre : List Call) (c : Call) (post : List Call) :
+    (runHistory st (pre ++ c :: post))[pre.length]? = some c.alone := by
+  induction pre generalizing st with
+  | nil => simp [runHistory, Call.run]
+  | cons p ps ih => simpa [runHistory] using ih (p.run st).2
+
+/-- the `Streamer` class declares no mutable container: nothing a streamer learns while parsing for one network can
+reach the streamer of another (re-checked against the class on every build) -/
+theorem C16_streamer_stateless : Gen.Messages.streamerClassState = [] := by decide
+
+/-- networks differ only in the `T`, `B`, `z` codecs -/
+theorem C16_net_codecs (n : Net) (k : Codec) (hk : k ≠ .block ∧ k ≠ .header) :
+    codecImplNet n k = codecImpl n.coin k := by
+  unfold codecImplNet
+  split
+  · cases k <;> simp_all
+  · rfl
+
+theorem tbl_S' : tbl 'S' = some .compactString := by decide
+
+def BtgHeaderWF (h : BtgHeader) : Prop :=
+  h.prev.length = 32 ∧ h.merkleRoot.length = 32 ∧ h.nonce.length = 32 ∧ h.solution.length < 2 ^ 63
+
+theorem BtgBlock.header_law : PrefixLaw BtgBlock.streamHeader BtgBlock.parseAsHeader BtgHeaderWF := by
+  intro h b rest ⟨hp, hr, hn, hs⟩ hser
+  unfold BtgBlock.streamHeader at hser
+  cases h1 : Wire.streamStruct tbl Gen.Messages.btgBlock_stream_header_stream
+      [.int h.version, .bytes h.prev, .bytes h.merkleRoot, .int h.height] with
+  | error e => simp [h1] at hser
+  | ok a =>
+    cases h2 : Wire.streamStruct tbl Gen.Messages.btgBlock_stream_header_stream_2
+        [.int h.timestamp, .int h.difficulty, .bytes h.nonce, .bytes h.solution] with
+    | error e => simp [h1, h2] at hser
+    | ok c =>
+      simp only [h1, h2] at hser
+      have hser := Except.ok.inj hser
+      subst hser
+      have w1 : StructWF tbl Gen.Messages.btgBlock_parse_as_header_parse
+          [.int h.version, .bytes h.prev, .bytes h.merkleRoot, .int h.height] := by
+        simp [Gen.Messages.btgBlock_parse_as_header_parse, StructWF, tbl_hash, tbl_L, LetterWF, hp, hr]
+      have w2 : StructWF tbl Gen.Messages.btgBlock_parse_as_header_parse_2
+          [.int h.timestamp, .int h.difficulty, .bytes h.nonce, .bytes h.solution] := by
+        simp [Gen.Messages.btgBlock_parse_as_header_parse_2, StructWF, tbl_hash, tbl_L, tbl_S', LetterWF, hn]
+        exact hs
+      have p1 := parseStruct_streamStruct tbl _ _ a (List.replicate Gen.Messages.btgReserved.2 0 ++ c ++ rest) w1
+        (by simpa [Gen.Messages.btgBlock_parse_as_header_parse, Gen.Messages.btgBlock_stream_header_stream] using h1)
+      have p2 := parseStruct_streamStruct tbl _ _ c rest w2
+        (by simpa [Gen.Messages.btgBlock_parse_as_header_parse_2, Gen.Messages.btgBlock_stream_header_stream_2] using h2)
+      have hd : List.drop Gen.Messages.btgReserved.1 (List.replicate Gen.Messages.btgReserved.2 (0 : UInt8) ++ (c ++ rest)) = c ++ rest := by
+        have : Gen.Messages.btgReserved = (28, 28) := by decide
+        rw [this]
+        exact List.drop_left' (by simp)
+      cases h
+      simp only [BtgBlock.parseAsHeader, List.append_assoc] at p1 ⊢
+      simp only [p1, hd, p2]
+
+/-- C16.btg_header_law: the Bitcoin Gold header codec (`z` on BTG) obeys the prefix-parser law: 32-byte hashes and nonce,
+a solution a parser can read back; the 28 reserved bytes are written as zeros and skipped -/
+theorem C16_btg_header_law : CodecLaw btgHeaderImpl (fun v => ∃ h : BtgHeader, v = .blockBtg ⟨h, []⟩ ∧ BtgHeaderWF h) := by
+  intro v b rest ⟨h, hv, hwf⟩ hser
+  subst hv
+  simp only [btgHeaderImpl] at hser
+  have hser := liftW_ok hser
+  simp [btgHeaderImpl, BtgBlock.header_law h b rest hwf hser]
+
+/-- C16.btg_block_law: the Bitcoin Gold block codec (`B` on BTG): header as above, ≥ 1 transaction in range, the header
+carrying the merkle root of the transactions -/
+theorem C16_btg_block_law (c : Coin) : CodecLaw (btgBlockImpl c)
+    (fun v => ∃ b : BtgBlock, v = .blockBtg b ∧ BtgHeaderWF b.hdr ∧ 1 ≤ b.txs.length ∧
+      (∀ t ∈ b.txs, t.WF ∧ 1 ≤ t.ins.length) ∧ b.hdr.merkleRoot = C14.specRoot c b.txs) := by
+  intro v b rest ⟨blk, hv, hh, hne, htx, hroot⟩ hser
+  subst hv
+  simp only [btgBlockImpl] at hser
+  have hser := liftW_ok hser
+  unfold BtgBlock.stream at hser
+  cases h1 : BtgBlock.streamHeader blk.hdr with
+  | error e => simp [h1] at hser
+  | ok hb =>
+    simp only [h1] at hser
+    unfold Block.streamTransactions at hser
+    have hne' : blk.txs.isEmpty = false := by
+      cases hx : blk.txs with
+      | nil => rw [hx] at hne; simp at hne
+      | cons a as => rfl
+    simp only [hne', Bool.false_eq_true, if_false, Gen.Messages.block_stream_transactions_stream_count] at hser
+    cases h2 : Wire.streamStruct tbl ['I'] [.int blk.txs.length] with
+    | error e => simp [h2] at hser
+    | ok nb =>
+      simp only [h2] at hser
+      cases h3 : streamList (fun t : Tx => t.stream) blk.txs with
+      | error e => simp [h3] at hser
+      | ok body =>
+        simp only [h3] at hser
+        have hser := Except.ok.inj hser
+        subst hser
+        have l1 := BtgBlock.header_law blk.hdr hb ((nb ++ body) ++ rest) hh h1
+        have l2 := parseStruct_streamStruct tbl ['I'] [.int blk.txs.length] nb (body ++ rest)
+          (by simp [StructWF, tbl_I, LetterWF]) h2
+        have l3 := parseN_streamList (tx_law c) blk.txs body rest htx h3
+        have hids := C14.txHashes_eq c blk.txs (fun t ht => (htx t ht).1)
+        have hne2 : C14.txids c blk.txs ≠ [] := by
+          intro h
+          have h' := congrArg List.length h
+          simp only [C14.txids, List.length_map, List.length_nil] at h'
+          omega
+        have hm := C14.C14_merkle_eq_spec_list Pycoin.Hash.dsha256 (C14.txids c blk.txs) hne2
+        have hl : (C14.txids c blk.txs).length = blk.txs.length := by simp [C14.txids]
+        rw [hl] at hm
+        simp only [List.append_assoc] at l1 l2 ⊢
+        simp only [btgBlockImpl, BtgBlock.parse, l1, Gen.Messages.block_parse_parse_count, l2, Int.toNat_natCast, l3, hne',
+          Bool.false_eq_true, if_false, hids, hm]
+        simp [C14.specRoot] at hroot
+        simp [hroot]
+
 /-! ## non-vacuity (evaluated on the real table) -/
 private def pingKw : Kwargs := [("nonce".toList, .int 0x0102030405060708)]
 #guard (match Msg.pack .btc "ping".toList pingKw with | .ok b => b == [8, 7, 6, 5, 4, 3, 2, 1] | _ => false)
